@@ -1654,9 +1654,8 @@ def worktree_side_honours_git_deletion(ctx, rule):
         raise AnalysisError('changed_notebooks: the two _get_diff_entry_stream calls were not found')
     FLAGS = {'deleted_file', 'change_type', 'b_mode', 'new_file', 'a_mode'}
     bcall = [c for c in calls if any(isinstance(x, ast.Attribute) and x.attr == 'b_path' for x in ast.walk(c))]
-    if not bcall:
-        raise AnalysisError('changed_notebooks: the b-side call was not found')
-    c = bcall[0]
+    # (if no call mentions b_path the pairing itself is broken -- R17.2 reports that; judge the second call here)
+    c = bcall[0] if bcall else calls[1]
     flag_args = [(i, a) for i, a in enumerate(list(c.args) + [k.value for k in c.keywords]) if any(isinstance(x, ast.Attribute) and x.attr in FLAGS for x in ast.walk(a))]
     ok1 = bool(flag_args)
     ctx.inst(rule, GF + ':changed_notebooks', repo.norm(c)[:100], ok1, 'git\'s change type is passed along' if ok1 else
